@@ -1172,6 +1172,7 @@ func (e *Engine) urlParse(c *CallCtx, s *Str) []Outcome {
 		n.f[fieldIndex(ut, "Opaque")] = constStr(u.Opaque)
 		n.f[fieldIndex(ut, "Fragment")] = constStr(u.Fragment)
 		c.st.heap.objs[p.obj] = n
+		c.st.ghost["urlraw:"+ptrKey(p)] = s // (*URL).String() of a constant is what the real parser prints
 		return c.ret(TupleV{p, IfaceV{}})
 	}
 	if v, ok := c.st.ghost[strKey("url", s)]; ok {
